@@ -14,6 +14,9 @@ CONSTANTS
   Tmos = {0, 2}
   Deadlines = {1000000, 5}
   Enableds = {TRUE, FALSE}
+  ThrLo = 1
+  ThrHi = 3
+  SlowDur = 1
 INVARIANT Property
 INVARIANT Conformance
 PROPERTY Quiescent
